@@ -23,6 +23,7 @@ func genC06(rt *rapid.T) World {
 	w := genWorld(rt, o)
 	w.Spec.Claims = rapid.SampledFrom([]int{0, 1, 1, 2, 2, 3}).Draw(rt, "claims06")
 	w.Spec.SelExpr = rapid.IntRange(0, 4).Draw(rt, "selExpr") == 0
+	w.Spec.SelExtra = rapid.SampledFrom([]int{0, 0, 1, 2, 3}).Draw(rt, "selExtra")
 	w.Spec.TemplateVolumes = rapid.SampledFrom([]int{0, 0, 1}).Draw(rt, "templateVolumes")
 	w.Spec.ClaimLabels = rapid.Bool().Draw(rt, "claimLabels")
 	w.Spec.Service = rapid.SampledFrom([]string{"", "svc", "headless-svc"}).Draw(rt, "service")
